@@ -1,6 +1,7 @@
 package main
 
 import (
+	"go/constant"
 	"fmt"
 	"go/ast"
 	"go/token"
@@ -11,7 +12,7 @@ import (
 func init() {
 	register(&propDef{
 		ID:          "C17",
-		Explanation: "Decides, for the language server's document copy (cmd/templ/lspcmd/proxy): R1 in DidChange the call that applies the content changes dominates parsing, generation, the source-map cache update and the forwarded DidChange, and the text parsed is the String() of the document that Apply returned; in DidOpen the document is stored before parsing; R2 in Document.Apply the range is normalised before any classification predicate or line index is evaluated, and the normaliser clamps a position past the last line to the END of the last line (the branch that clamps a line coordinate also sets that position's character); R3 the three edit predicates (insert / delete / overwrite), evaluated exhaustively over the truth assignments of their atoms {end line = start line, end column = start column, text empty}, are pairwise disjoint and cover every state except (empty range, empty text); R4 every satisfying assignment of the whole-document predicate constrains the end line AND the end column of the range (a range whose end line is unconstrained cannot be known to cover the document), besides requiring start 0:0; R5 the document store applies changes under its mutex. R6 a field of Document that memoises a value computed from the text (returned when non-nil, filled otherwise) is reset in every method that writes the fields it was computed from (none exists on the pinned tree; a positive control keeps the detector live). R7 the transport's async handler releases the next message only from inside the reply wrapper (messages are handled in arrival order, so edits are applied in the order sent). R1 also: DidOpen / DidChange have no `return nil` that the update of the cached document does not dominate. R8 the range normaliser is called only inside Document.Apply (each change of a batch is clamped against the document as the previous change left it). NOT decided: the splice arithmetic of Insert/Delete/Overwrite on concrete texts, UTF-16 column units.",
+		Explanation: "Decides, for the language server's document copy (cmd/templ/lspcmd/proxy): R1 in DidChange the call that applies the content changes dominates parsing, generation, the source-map cache update and the forwarded DidChange, and the text parsed is the String() of the document that Apply returned; in DidOpen the document is stored before parsing; R2 in Document.Apply the range is normalised before any classification predicate or line index is evaluated, and the normaliser clamps a position past the last line to the END of the last line (the branch that clamps a line coordinate also sets that position's character); R3 the three edit predicates (insert / delete / overwrite), evaluated exhaustively over the truth assignments of their atoms {end line = start line, end column = start column, text empty}, are pairwise disjoint and cover every state except (empty range, empty text); R4 every satisfying assignment of the whole-document predicate constrains the end line AND the end column of the range (a range whose end line is unconstrained cannot be known to cover the document), besides requiring start 0:0; R5 the document store applies changes under its mutex. R6 a field of Document that memoises a value computed from the text (returned when non-nil, filled otherwise) is reset in every method that writes the fields it was computed from (none exists on the pinned tree; a positive control keeps the detector live). R7 the transport's async handler releases the next message only from inside the reply wrapper (messages are handled in arrival order, so edits are applied in the order sent). R1 also: DidOpen / DidChange have no `return nil` that the update of the cached document does not dominate. R8 the range normaliser is called only inside Document.Apply (each change of a batch is clamped against the document as the previous change left it). NOT decided: the splice arithmetic of Insert/Delete/Overwrite on concrete texts, UTF-16 column units. R9 the server advertises full-text synchronisation (its formatting handler replaces its own copy before the editor applies the edit).",
 		Assumptions: []string{"atoms of the predicates are independent comparisons (truth table over uninterpreted atoms)"},
 		Trusted:     []string{"go/types", "x/tools go/packages, go/cfg"},
 		Run:         runC17,
@@ -22,6 +23,7 @@ func runC17(c *Ctx) {
 	c.load("./cmd/templ/lspcmd/proxy", "./lsp/jsonrpc2")
 	memoInvalidation(c, "C17.R6", "cmd/templ/lspcmd/proxy", "Document")
 	asyncHandlerKeepsOrder(c, "C17.R7")
+	advertisesFullSync(c, "C17.R9")
 	p := c.pkg("cmd/templ/lspcmd/proxy")
 	info := p.TypesInfo
 
@@ -728,4 +730,52 @@ func enclosingBinary(body *ast.BlockStmt, id *ast.Ident) *ast.BinaryExpr {
 		return true
 	})
 	return out
+}
+
+// advertisesFullSync: C17.R9 — the server answers a formatting request by replacing ITS OWN copy of the document with
+// the formatted text and sending the editor one whole-document edit. That is only consistent with the editor's next
+// change notification when the editor resends the whole text (TextDocumentSyncKindFull): with incremental sync the
+// editor reports the applied edit as a range against the text it had before, and the server applies that range to the
+// already-formatted copy (the tail is duplicated whenever formatting changed the number of lines). So: the sync kind
+// advertised in Initialize is Full for as long as a request handler stores text into the document set.
+func advertisesFullSync(c *Ctx, rule string) {
+	p := c.pkg("cmd/templ/lspcmd/proxy")
+	info := p.TypesInfo
+	n := 0
+	for _, fd := range allFuncDecls(p) {
+		if fd.Body == nil {
+			continue
+		}
+		ast.Inspect(fd.Body, func(x ast.Node) bool {
+			cl, ok := x.(*ast.CompositeLit)
+			if !ok {
+				return true
+			}
+			if t := info.TypeOf(cl); t == nil || !strings.HasSuffix(t.String(), ".TextDocumentSyncOptions") {
+				return true
+			}
+			for _, el := range cl.Elts {
+				kv, ok := el.(*ast.KeyValueExpr)
+				if !ok || types.ExprString(kv.Key) != "Change" {
+					continue
+				}
+				n++
+				tv, ok := info.Types[kv.Value]
+				full := false
+				if ok && tv.Value != nil {
+					// the protocol's constant for "full" (None = 0, Full = 1, Incremental = 2), looked up by name
+					if nt, isNamed := tv.Type.(*types.Named); isNamed && nt.Obj().Pkg() != nil {
+						if k, isConst := nt.Obj().Pkg().Scope().Lookup("TextDocumentSyncKindFull").(*types.Const); isConst {
+							full = constant.Compare(tv.Value, token.EQL, k.Val())
+						}
+					}
+				}
+				c.check(full, rule, funcKey(p, fd)+"|TextDocumentSync.Change", c.pos(kv.Pos()), "the editor is asked to send the whole text on every change",
+					fmt.Sprintf("%s advertises %s as the text synchronisation kind: the server's formatting handler replaces its own copy of the document before the editor applies the edit, so a ranged change notification is applied to text the editor never had and the two copies diverge", fd.Name.Name, types.ExprString(kv.Value)))
+			}
+			return true
+		})
+	}
+	c.count("sync_kind_advertisements", n)
+	c.floor(rule, 1)
 }
